@@ -247,6 +247,14 @@ def main(argv=None):
         if len(samples) < 12:
             samples.append({'obligation': ob.name, 'target': ob.target, 'first_slice': ob.slices[0], 'bounds': ob.bounds})
 
+    # scratch files shared by the workers of this run
+    import glob
+    import tempfile
+    for f in glob.glob(os.path.join(tempfile.gettempdir(), 'verif_*_%s.json*' % os.environ['VERIF_RUN_ID'])):
+        try:
+            os.remove(f)
+        except OSError:
+            pass
     for ln in lines:
         print(ln)
     for he in harness_errors:
